@@ -96,7 +96,7 @@ def tensor_of(state_obj):
 @contract
 class HasReqRemotePerm(Contract):
     qualname = "nasim.envs.network.Network.has_required_remote_permission"
-    tags = {"": ("C02", "C01", "C07", "C12")}
+    tags = {"": ("C02", "C01", "C07", "C12", "C14")}
 
     def variants(self):
         return list(V.KINDS)
@@ -165,7 +165,7 @@ class HasReqRemotePermLoop(LoopContract):
 @contract
 class TrafficPermitted(Contract):
     qualname = "nasim.envs.network.Network.traffic_permitted"
-    tags = {"": ("C02", "C01", "C07", "C12")}
+    tags = {"": ("C02", "C01", "C07", "C12", "C14")}
 
     def concretize(self, I, S):
         from . import dyn_cex
@@ -248,7 +248,7 @@ class UpdateReachable(Contract):
     def modifies(self, I, S):
         return [tensor_of(S.a["state"])]
 
-    tags = {"": ("C03", "C04", "C01", "C12", "C13")}
+    tags = {"": ("C03", "C04", "C01", "C12", "C13", "C14")}
 
     def concretize(self, I, S):
         from . import dyn_cex
@@ -371,7 +371,7 @@ class PerformSubnetScan(Contract):
     def modifies(self, I, S):
         return [tensor_of(S.a["next_state"])]
 
-    tags = {"": ("C02", "C03", "C05", "C08", "C04", "C07", "C12", "C13")}
+    tags = {"": ("C02", "C03", "C05", "C08", "C04", "C07", "C12", "C13", "C14")}
 
     def variants(self):
         return ["SubnetScan"]
@@ -508,7 +508,7 @@ def reset_rows(sig, T0, T1, k):
 @contract
 class NetworkReset(Contract):
     qualname = "nasim.envs.network.Network.reset"
-    tags = {"": ("C03", "C04", "C13", "C19")}
+    tags = {"": ("C03", "C04", "C13", "C19", "C14")}
 
     def concretize(self, I, S):
         from . import dyn_cex
@@ -585,7 +585,7 @@ class NetworkResetLoop(LoopContract):
 @contract
 class AllSensitive(Contract):
     qualname = "nasim.envs.network.Network.all_sensitive_hosts_compromised"
-    tags = {"": ("C06", "C12", "C13")}
+    tags = {"": ("C06", "C12", "C13", "C14")}
 
     def concretize(self, I, S):
         from . import dyn_cex
@@ -698,7 +698,7 @@ def net_spec(sig, a, T, U, T_ss, T_ur):
 @contract
 class NetPerformAction(Contract):
     qualname = "nasim.envs.network.Network.perform_action"
-    tags = {"C01": ("C01",), "C02": ("C02",), "C03": ("C03",), "C04": ("C04",), "C05": ("C05",), "C07": ("C07",),
+    tags = {"C01": ("C01",), "C02": ("C02",), "C03": ("C03",), "C04": ("C04", "C20"), "C05": ("C05", "C20"), "C07": ("C07",),
             "C13": ("C13",), "C14": ("C14",),
             "spec": ("C01", "C02", "C03", "C04", "C05", "C06", "C07", "C12", "C13", "C14"),
             "raises": ("C01", "C02", "C07", "C10"), "frame": ("C04", "C13")}
